@@ -14,8 +14,10 @@ if not os.path.isdir(src) and k.isdigit() and 6 < int(k) <= 9:
     src = f"/tmp/seedout-{prop}c/{int(k) - 6}"        # third round: stored as <prop>-7..9
 if not os.path.isdir(src) and k.isdigit() and 9 < int(k) <= 12:
     src = f"/tmp/seedout-{prop}d/{int(k) - 9}"        # fourth round: stored as <prop>-10..12
-if not os.path.isdir(src) and k.isdigit() and int(k) > 12:
+if not os.path.isdir(src) and k.isdigit() and 12 < int(k) <= 15:
     src = f"/tmp/seedout-{prop}e/{int(k) - 12}"       # fifth round: stored as <prop>-13..15
+if not os.path.isdir(src) and k.isdigit() and int(k) > 15:
+    src = f"/tmp/seedout-{prop}f/{int(k) - 15}"       # sixth round: stored as <prop>-16..
 if not os.path.isdir(src):
     src = f"/verif/seeded/{prop}-{k}"
 diff, demo = f"{src}/patch.diff", f"{src}/demo.py"
